@@ -160,6 +160,21 @@ def h_add_edges_from_setarg(ctx, H, P):
     mem.discard(a)
 
 
+def h_add_edges_from_attrpairs(ctx, H, P):
+    """Per-edge attributes given as a list of (key, value) pairs (accepted by
+    dict.update) or as an invalid value: the state after a raise must be consistent."""
+    a, b, v = ctx.fresh(), ctx.fresh(), ctx.fresh("v")
+    i = ctx.fresh("i")
+    kind = ctx.choose("attrkind", 3)
+    eattr = [[("k", v)], None, 5][kind]
+    fmt = ctx.choose("fmt", 2)
+    _rec(ctx, members=[a, b], idx=i, fmt=[3, 4][fmt], eattr=["pairs", "None", "int"][kind])
+    if fmt == 0:
+        H.add_edges_from([([a, b], eattr)] if kind == 0 else [([a, b], {}), ([a], eattr)])
+    else:
+        H.add_edges_from([([a, b], i, eattr)])
+
+
 def h_add_edge_stridx(ctx, H, P):
     mem = _members(ctx, 2)
     _rec(ctx, members=mem, idx="edge-s")
@@ -353,6 +368,7 @@ OPS_H = {
         h_add_edges_from_none,
         h_add_edges_from_iter,
         h_add_edges_from_setarg,
+        h_add_edges_from_attrpairs,
         h_none_ids,
         h_add_edge_stridx,
         h_add_edges_from_1,
@@ -391,6 +407,7 @@ ADD_ONLY = {
 }
 
 HEAVY_H = {
+    "add_edges_from_attrpairs",
     "add_edges_from_iter",
     "add_edges_from_setarg",
     "add_edges_from_1",
